@@ -6,7 +6,7 @@ Import ListNotations.
 
 Section R.
 Variable structs : structs_t.
-Variable callf : nat -> list value -> list line -> res value.
+Variable callf : nat -> list value -> list line -> res (value * list value).
 
 (* wrapping statements in `if true { }` is the same as wrapping them in a block *)
 Lemma if_true_is_block k s en out :
@@ -26,56 +26,60 @@ Fixpoint callfree (e : expr) : bool :=
   | EUn _ a => callfree a
   | ECast a _ => callfree a
   | ECall _ _ => false
+  | ECallR _ _ => false
   | EStructLit _ _ => false
   | EField a _ => callfree a
   end.
 
-(* a call-free expression prints nothing: binding it to a local earlier or later cannot reorder output *)
-Lemma callfree_no_output : forall e en out v out',
-  callfree e = true -> eval structs callf e en out = Ok v out' -> out' = out.
+(* a call-free expression prints nothing and leaves the environment unchanged: binding it to a local earlier or later cannot
+   reorder output, nor can it change what later expressions see *)
+Lemma callfree_no_output : forall e en out r out',
+  callfree e = true -> eval structs callf e en out = Ok r out' -> out' = out /\ snd r = en.
 Proof.
-  induction e as [t z|b|x|o a IHa b IHb|o a IHa|a IHa t|f es|sid es|a IHa k]; intros en out v out' Hc H; cbn in *.
-  - inversion H; reflexivity.
-  - inversion H; reflexivity.
-  - destruct (lookup x en); inversion H; reflexivity.
+  induction e as [t z|b|x|o a IHa b IHb|o a IHa|a IHa t|f es|sid es|a IHa k|f args]; intros en out r out' Hc H; cbn in *.
+  - inversion H; auto.
+  - inversion H; auto.
+  - destruct (lookup x en); inversion H; auto.
   - apply andb_prop in Hc as [Ha Hb].
     destruct o;
-    (destruct (eval structs callf a en out) as [va o1| | |] eqn:Ea; cbn in H; try discriminate;
-     pose proof (IHa _ _ _ _ Ha Ea) as ->);
-    try (destruct (eval structs callf b en out) as [vb o2| | |] eqn:Eb; cbn in H; try discriminate;
-         pose proof (IHb _ _ _ _ Hb Eb) as ->;
+    (destruct (eval structs callf a en out) as [[va ena] o1| | |] eqn:Ea; cbn in H; try discriminate;
+     destruct (IHa _ _ _ _ Ha Ea) as [-> Hena]; cbn in Hena; subst ena);
+    try (destruct (eval structs callf b en out) as [[vb enb] o2| | |] eqn:Eb; cbn in H; try discriminate;
+         destruct (IHb _ _ _ _ Hb Eb) as [-> Henb]; cbn in Henb; subst enb;
          destruct va, vb; try discriminate;
          repeat match type of H with
                 | context [if ?c then _ else _] => destruct c
                 | context [match ?c with _ => _ end] => destruct c
-                end; try discriminate; inversion H; reflexivity).
-    + destruct va as [| [|] | |]; try discriminate; [|inversion H; reflexivity].
-      destruct (eval structs callf b en out) as [vb o2| | |] eqn:Eb; cbn in H; try discriminate.
-      pose proof (IHb _ _ _ _ Hb Eb) as ->. destruct vb; try discriminate; inversion H; reflexivity.
-    + destruct va as [| [|] | |]; try discriminate; [inversion H; reflexivity|].
-      destruct (eval structs callf b en out) as [vb o2| | |] eqn:Eb; cbn in H; try discriminate.
-      pose proof (IHb _ _ _ _ Hb Eb) as ->. destruct vb; try discriminate; inversion H; reflexivity.
-  - destruct o; destruct (eval structs callf a en out) as [va o1| | |] eqn:Ea; cbn in H; try discriminate;
-      pose proof (IHa _ _ _ _ Hc Ea) as ->; destruct va; try discriminate; inversion H; reflexivity.
-  - destruct (eval structs callf a en out) as [va o1| | |] eqn:Ea; cbn in H; try discriminate.
-    pose proof (IHa _ _ _ _ Hc Ea) as ->. destruct va; try discriminate; inversion H; reflexivity.
+                end; try discriminate; inversion H; auto).
+    + destruct va as [| [|] | |]; try discriminate; [|inversion H; auto].
+      destruct (eval structs callf b en out) as [[vb enb] o2| | |] eqn:Eb; cbn in H; try discriminate.
+      destruct (IHb _ _ _ _ Hb Eb) as [-> Henb]. cbn in Henb. subst enb. destruct vb; try discriminate; inversion H; auto.
+    + destruct va as [| [|] | |]; try discriminate; [inversion H; auto|].
+      destruct (eval structs callf b en out) as [[vb enb] o2| | |] eqn:Eb; cbn in H; try discriminate.
+      destruct (IHb _ _ _ _ Hb Eb) as [-> Henb]. cbn in Henb. subst enb. destruct vb; try discriminate; inversion H; auto.
+  - destruct o; destruct (eval structs callf a en out) as [[va ena] o1| | |] eqn:Ea; cbn in H; try discriminate;
+      destruct (IHa _ _ _ _ Hc Ea) as [-> Hena]; cbn in Hena; subst ena; destruct va; try discriminate; inversion H; auto.
+  - destruct (eval structs callf a en out) as [[va ena] o1| | |] eqn:Ea; cbn in H; try discriminate.
+    destruct (IHa _ _ _ _ Hc Ea) as [-> Hena]. cbn in Hena. subst ena. destruct va; try discriminate; inversion H; auto.
   - discriminate.
   - discriminate.
-  - destruct (eval structs callf a en out) as [va o1| | |] eqn:Ea; cbn in H; try discriminate.
-    pose proof (IHa _ _ _ _ Hc Ea) as ->. destruct va; try discriminate.
+  - destruct (eval structs callf a en out) as [[va ena] o1| | |] eqn:Ea; cbn in H; try discriminate.
+    destruct (IHa _ _ _ _ Hc Ea) as [-> Hena]. cbn in Hena. subst ena. destruct va; try discriminate.
     destruct (nth_error structs sid); try discriminate.
-    destruct (nth_error l k), (nth_error fs k); try discriminate. inversion H; reflexivity.
+    destruct (nth_error l k), (nth_error fs k); try discriminate. inversion H; auto.
+  - discriminate.
 Qed.
 
-(* replacing a literal by a call to a function that returns this literal *)
-Lemma lit_call_local g t z en out :
-  callf g [] out = Ok (VInt t z) out ->
+(* replacing a literal by a call to a function that returns this literal (whatever final parameter values it reports:
+   a plain call does not read them) *)
+Lemma lit_call_local g t z en out fin :
+  callf g [] out = Ok (VInt t z, fin) out ->
   eval structs callf (ECall g []) en out = eval structs callf (ELit t z) en out.
-Proof. intros H. cbn. exact H. Qed.
+Proof. intros H. cbn. rewrite H. reflexivity. Qed.
 End R.
 
 (* the function `fn g() -> t { return z; }` does return z, for every positive fuel and every output prefix *)
 Lemma const_fn_returns structs p g t z fuel out :
   nth_error p g = Some {| fparams := []; fret := TInt t; fbody := SReturn (Some (ELit t z)) |} ->
-  call structs p (S fuel) g [] out = Ok (VInt t z) out.
+  call structs p (S fuel) g [] out = Ok (VInt t z, []) out.
 Proof. intros H. cbn. rewrite H. cbn. reflexivity. Qed.
